@@ -62,6 +62,12 @@ Proof.
   - cbn [ll_rep c_rep]. rewrite ty_rep_agree. reflexivity.
 Qed.
 
+(* the compiler addresses the fields of Text, lists and Variable by index constants; they name the same
+   positions as the header's field order (regenerated tables) *)
+Lemma field_roles_agree :
+  go_list_roles = hdr_list_roles /\ go_string_roles = hdr_string_roles /\ go_any_roles = hdr_any_roles.
+Proof. repeat split. Qed.
+
 (* induction on the parameter list: any arity *)
 Lemma params_rep_agree : forall ps, map ll_rep (map ll_param ps) = map c_rep (map c_param ps).
 Proof.
